@@ -85,6 +85,14 @@ func runC18(r *Run) {
 				}
 			}
 			name := spec.setter[strings.LastIndex(spec.setter, ".")+1:]
+			// the same precedence written as a selection: one setter call whose argument is the request-level
+			// value when that is non-empty and the client-level value only otherwise
+			if cs == nil || rs == nil {
+				if selectsRequestFirst(f, spec.setter, spec.cfield, spec.rfield) {
+					r.ok("parserRequestHeader:"+name+":client-before-request", r.fpos(f), "one setter call; its argument is the client-level value only on paths where the request-level value is empty")
+					continue
+				}
+			}
 			r.check(cs != nil && rs != nil && precedes(cs, rs), "parserRequestHeader:"+name+":client-before-request", r.fpos(f), "client value is written first, request value last (last wins)",
 				"request-level "+name+" does not override the client-level one (missing or written first)")
 		}
@@ -162,7 +170,7 @@ func runC18(r *Run) {
 				ct = br.If
 			}
 		}
-		r.check(rt != nil && ct != nil && rt.Block().Dominates(ct.Block()) && rt.Block() != ct.Block(), "core.timeout:request-first", r.fpos(t), "the request timeout is tested before the client timeout", "the client-level timeout takes precedence over the request-level one")
+		r.check(rt != nil && ct != nil && dom(rt.Block(), ct.Block()) && rt.Block() != ct.Block(), "core.timeout:request-first", r.fpos(t), "the request timeout is tested before the client timeout", "the client-level timeout takes precedence over the request-level one")
 	})
 
 	r.rule("R2", "jar path scoping: the cookie path must be a prefix of the request path (E3)", func() {
@@ -619,4 +627,68 @@ func lvl(client bool) string {
 		return "client"
 	}
 	return "request"
+}
+
+// selectsRequestFirst: f calls the setter once with a phi that carries the request-level field on
+// some edge and the client-level field only on edges that cannot be taken while the request-level
+// field is non-empty.
+func selectsRequestFirst(f *ssa.Function, setter, cfield, rfield string) bool {
+	calls := callsMatching(f, false, nameHasSuffix(setter))
+	if len(calls) != 1 {
+		return false
+	}
+	arg := calls[0].Common.Args[len(calls[0].Common.Args)-1]
+	// edges on which rfield is known to be empty
+	cut := map[edge]bool{}
+	for _, br := range branchesIn(f) {
+		if !loadOfField(br.Info.Root, rfield) {
+			continue
+		}
+		if str, ok := constString(br.Info.Const); ok && str == "" {
+			if sl, ok := br.slotFor(token.EQL); ok {
+				cut[edge{br.If.Block(), sl}] = true
+			}
+		}
+	}
+	if len(cut) == 0 {
+		return false
+	}
+	live := blocksReachable(f.Blocks[0], cut, nil)
+	sawReq, okClient := false, true
+	seen := map[*ssa.Phi]bool{}
+	var walk func(v ssa.Value, pred, at *ssa.BasicBlock)
+	walk = func(v ssa.Value, pred, at *ssa.BasicBlock) {
+		if ph, ok := v.(*ssa.Phi); ok {
+			if seen[ph] {
+				return
+			}
+			seen[ph] = true
+			for i, e := range ph.Edges {
+				walk(e, ph.Block().Preds[i], ph.Block())
+			}
+			return
+		}
+		if loadOfField(v, rfield) {
+			sawReq = true
+			return
+		}
+		if loadOfField(v, cfield) {
+			if pred == nil {
+				okClient = false
+				return
+			}
+			// can the edge pred→at be taken while rfield is non-empty?
+			slot := -1
+			for i, sc := range pred.Succs {
+				if sc == at {
+					slot = i
+				}
+			}
+			if live[pred] && slot >= 0 && !cut[edge{pred, slot}] {
+				okClient = false
+			}
+		}
+	}
+	walk(arg, nil, nil)
+	return sawReq && okClient
 }
